@@ -1109,7 +1109,7 @@ Lemma refuted_ex_matrix_rows : exists p, refutes "matrix-rows" p /\
     parse_tok (fmt_prog true p) = Some [SExpr (EMat [flat])] /\ List.length flat = 6.
 Proof.
   exists w_matrix. destruct refuted_matrix_rows as (H1 & H2 & _ & H4 & H5). split; [repeat split; assumption|].
-  eexists _, _, _. split; [reflexivity|]. repeat split. exact H4.
+  eexists _, _, _. split; [reflexivity|]. split; [reflexivity|]. split; [reflexivity|]. split; [exact H4|reflexivity].
 Qed.
 Lemma refuted_ex_named_arg : exists p, refutes "named-arg-colon" p.
 Proof. exists w_named. destruct refuted_named_arg as (H1 & H2 & _ & H4). repeat split; assumption. Qed.
@@ -1159,15 +1159,15 @@ Lemma judge_prog_sound p o tag :
 Proof.
   unfold judge_prog. destruct o as [|feat|ob|]; try discriminate.
   - destruct (existsb is_panic (fmt_prog true p)); discriminate.
-  - destruct (existsb is_panic (fmt_prog true p)); [discriminate|].
-    destruct (String.eqb (o_text ob) (render (fmt_prog true p))) eqn:Ht; cbn [negb]; [|discriminate].
-    destruct (all_good ob) eqn:Hg.
-    + apply all_good_spec in Hg.
-      destruct (String.eqb (render (fmt_prog true p)) (render (fmt_prog false p))) eqn:Hc; intros H; injection H as <-.
-      * split; [exists ob; tauto|]. intros _. exists ob. split; [reflexivity|].
-        apply String.eqb_eq in Ht, Hc. congruence.
-      * split; [exists ob; tauto|]. discriminate.
-    + destruct (class_of p); discriminate.
+  - destruct (String.eqb (o_text ob) (render (fmt_prog false p))) eqn:Hc.
+    + destruct (all_good ob) eqn:Hg.
+      * intros H. injection H as <-. apply all_good_spec in Hg. split; [exists ob; tauto|].
+        intros _. exists ob. split; [reflexivity|]. apply String.eqb_eq in Hc. exact Hc.
+      * destruct (lex_class_of p); discriminate.
+    + destruct (negb (existsb is_panic (fmt_prog true p)) && String.eqb (o_text ob) (render (fmt_prog true p))); [|discriminate].
+      destruct (all_good ob) eqn:Hg.
+      * intros H. injection H as <-. apply all_good_spec in Hg. split; [exists ob; tauto|]. discriminate.
+      * destruct (class_of p); discriminate.
 Qed.
 
 Lemma judge_diff_sound cls o tag : judge_diff cls o = v_ok tag -> observed_roundtrip o.
